@@ -317,24 +317,25 @@ fn subset_composite_glyph(g: &CompositeGlyph, plan: &Plan) -> Vec<u8> {
 // trim padding bytes for simple glyphs, return trimmed length of the raw data for flags & x/y coordinates
 fn trim_simple_glyph_padding(glyph_data: &[u8], num_coords: u16) -> usize {
     let mut coord_bytes: usize = 0;
-    let mut coords_with_flags: u16 = 0;
+    let mut coords_with_flags: usize = 0;
+    let num_coords = num_coords as usize;
     let length = glyph_data.len();
     let mut i: usize = 0;
     while i < length {
         let flag = SimpleGlyphFlags::from_bits_truncate(glyph_data[i]);
         i += 1;
 
-        let mut repeat: u8 = 1;
+        let mut repeat: usize = 1;
         if flag.contains(SimpleGlyphFlags::REPEAT_FLAG) {
             if i >= length {
                 return 0;
             }
-            repeat = glyph_data[i] + 1;
+            repeat = glyph_data[i] as usize + 1;
             i += 1;
         }
 
-        let mut x_bytes: u8 = 0;
-        let mut y_bytes: u8 = 0;
+        let mut x_bytes: usize = 0;
+        let mut y_bytes: usize = 0;
         if flag.contains(SimpleGlyphFlags::X_SHORT_VECTOR) {
             x_bytes = 1;
         } else if !flag.contains(SimpleGlyphFlags::X_IS_SAME_OR_POSITIVE_X_SHORT_VECTOR) {
@@ -347,8 +348,8 @@ fn trim_simple_glyph_padding(glyph_data: &[u8], num_coords: u16) -> usize {
             y_bytes = 2;
         }
 
-        coord_bytes += ((x_bytes + y_bytes) * repeat) as usize;
-        coords_with_flags += repeat as u16;
+        coord_bytes += (x_bytes + y_bytes) * repeat;
+        coords_with_flags += repeat;
         if coords_with_flags >= num_coords {
             break;
         }
